@@ -196,6 +196,19 @@ def rule_r3(facts, rep, rid="C04-R3"):
                     elif cal.endswith("HashMap::remove"):
                         removes.append((b, c, x))
         key = "%s|cache:%s" % (fm.def_, name)
+        # a per-key cache must be REPLACED by the new version: entry(k).or_*().extend/push(..) accumulates on top of the previous version's value
+        acc = []
+        for b, c, x in inserts:
+            cal = fb.callee(x) or ""
+            if cal.endswith("HashMap::entry"):
+                ups = [m["name"] for m in chain_up(c, x)]
+                if not any(u in ("insert", "insert_entry") for u in ups) and not (ups and ups[0] == "or_insert" and False):
+                    acc.append((b, x, ups))
+        if acc:
+            b, x, ups = acc[0]
+            rep.violation(rid, key + "|accumulates", "Graph.%s is updated through `entry(key).%s(..)`: the new version's value is added to the previous version's instead of replacing it, so "
+                          "what earlier versions of the note recorded under this key (line ranges of deleted blocks, ...) stays and is used again" % (name, ".".join(ups[:3])), loc(b, x))
+            continue
         if not inserts:
             rep.violation(rid, key + "|no-write", "per-key map Graph.%s is not written when a key is updated: it keeps the value of the "
                           "previous version of the note" % name, fm.loc)
